@@ -235,6 +235,23 @@ def scale_chain(fn, var_name):
                             if l is not None and l.get("k") == "DeclRefExpr" and l.get("n") == var_name:
                                 f *= const_of(x["c"][1])
                                 widths.append((fn.tu.types[l["t"]].get("w"), x))
+                        elif x.get("k") == "BinaryOperator" and x.get("op") == "=":
+                            # v = v * c, written out
+                            l, r = strip(x["c"][0]), strip(x["c"][1])
+                            while r is not None and r.get("k") in CASTS and r.get("c"):
+                                r = strip(r["c"][0])
+                            if l is not None and l.get("k") == "DeclRefExpr" and l.get("n") == var_name and r is not None \
+                                    and r.get("k") == "BinaryOperator" and r.get("op") == "*":
+                                a_, b_ = strip(r["c"][0]), strip(r["c"][1])
+                                while a_ is not None and a_.get("k") in CASTS and a_.get("c"):
+                                    a_ = strip(a_["c"][0])
+                                while b_ is not None and b_.get("k") in CASTS and b_.get("c"):
+                                    b_ = strip(b_["c"][0])
+                                for v_, c_ in ((a_, b_), (b_, a_)):
+                                    if v_ is not None and v_.get("k") == "DeclRefExpr" and v_.get("n") == var_name and const_of(c_) is not None:
+                                        f *= const_of(c_)
+                                        widths.append((fn.tu.types[r["t"]].get("w") if r.get("t") is not None else fn.tu.types[l["t"]].get("w"), x))
+                                        break
                 if groups[j].get("falls") and j + 1 < len(groups):
                     j += 1
                 else:
